@@ -518,7 +518,11 @@ def xarray_reduce(
             missing_group_dims = {d: size for d, size in group_sizes.items() if d not in v.dims}
             # The expand_dims is for backward compat with xarray's questionable behaviour
             if missing_group_dims:
-                actual[k] = v.expand_dims(missing_group_dims).variable
+                expanded = v.expand_dims(missing_group_dims)
+                if nby > 1:
+                    # with several groupers the group dimensions come last, as for the reduced variables
+                    expanded = expanded.transpose(..., *missing_group_dims)
+                actual[k] = expanded.variable
             else:
                 actual[k] = v.variable
 
